@@ -66,6 +66,11 @@ def header_variants(cred, tier):
         ('authorization-not-proxy', [b'Authorization: Basic ' + good], 'reject'),
         ('x-proxy-authorization', [b'X-Proxy-Authorization: Basic ' + good], 'reject'),
         ('good-in-other-header', [b'Cookie: Proxy-Authorization: Basic ' + good], 'reject'),
+        # a client that asks for a persistent proxy connection (as browsers and curl do) is turned away like any other
+        ('absent+proxy-connection-keepalive', [b'Proxy-Connection: keep-alive'], 'reject'),
+        ('absent+connection-keepalive', [b'Connection: keep-alive', b'Proxy-Connection: Keep-Alive'], 'reject'),
+        ('otheruser+proxy-connection-keepalive', [bad, b'Proxy-Connection: Keep-Alive'], 'reject'),
+        ('exact+proxy-connection-keepalive', [std, b'Proxy-Connection: keep-alive'], 'accept'),
     ]
     return V
 
